@@ -21,7 +21,7 @@ table = json.load(open(f'{V}/tools/seed_table.json'))
 args = [a for a in sys.argv[1:] if not a.startswith('--')]
 tier = sys.argv[sys.argv.index('--tier') + 1] if '--tier' in sys.argv else 'quick'
 jobs = int(sys.argv[sys.argv.index('--jobs') + 1]) if '--jobs' in sys.argv else 5
-ids = [a for a in args if a in table or a[-1] in 'EFGHIJ'] or sorted(table)
+ids = [a for a in args if a in table or a[-1] in 'EFGHIJKL'] or sorted(table)
 head = subprocess.run(['git', '-C', '/repo', 'rev-parse', '--short', 'HEAD'], capture_output=True, text=True).stdout.strip()
 
 
@@ -35,6 +35,9 @@ def one(sid):
     if tag in ('C', 'D'):      # round 2: A -> C, B -> D
         src = f'{SRC}2/seed-{pid}'
         tag = {'C': 'A', 'D': 'B'}[tag]
+    if tag in ('K', 'L'):      # round 6: A -> K, B -> L
+        src = f'{SRC}6/seed-{pid}'
+        tag = {'K': 'A', 'L': 'B'}[tag]
     if tag in ('I', 'J'):      # round 5: A -> I, B -> J
         src = f'{SRC}5/seed-{pid}'
         tag = {'I': 'A', 'J': 'B'}[tag]
